@@ -48,6 +48,15 @@ def main(run):
     for i in range(n):
         hdr, ops = gen_wire.gen_build_case(r, allow_big=(i % 10 == 0))
         cases.append((hdr, ops, gen_wire.line_of(hdr, ops)))
+    # options+payload length exactly at every boundary of the four RFC 8323 Len forms
+    nf = 0
+    for rep in range(2 if run.tier == "quick" else 12):
+        for tgt in gen_wire.FRAME_BND:
+            for proto in ("tcp", "tcp", "ws", "udp")[:2 if tgt > 1000 and run.tier == "quick" and rep else 4]:
+                hdr, ops = gen_wire.gen_framelen_case(r, tgt, proto)
+                cases.append((hdr, ops, gen_wire.line_of(hdr, ops)))
+                nf += 1
+    run.cov["frame_length_boundary_cases"] = nf
     lines = [c[2] for c in cases]
     om, oc, crashes = tie.run_both(model, drv, lines)
     run.cov["driver_crashes"] = len(crashes)
